@@ -154,6 +154,7 @@ class FileStorage(
 
     # Set True while a pack is in progress; undo is blocked for the duration.
     _pack_is_in_progress = False
+    _nextpos = 0  # end of the transaction being voted, 0 outside of it
 
     def __init__(self, file_name, create=False, read_only=False, stop=None,
                  quota=None, pack_gc=True, pack_keep_old=True, packer=None,
@@ -788,6 +789,12 @@ class FileStorage(
             self._tfile.seek(0)
 
     def _begin(self, tid, u, d, e):
+        if self._nextpos and self._nextpos != self._pos:
+            # The previous tpc_abort could not clean up (its truncate
+            # failed, e.g. the disk was still full).  Do it now, so that
+            # no bytes of that transaction end up behind a shorter one.
+            self._file.truncate(self._pos)
+            self._files.flush()
         self._nextpos = 0
         self._thl = TRANS_HDR_LEN + len(u) + len(d) + len(e)
         if self._thl > 65535:
